@@ -145,7 +145,7 @@ Qed.
 (* ---------- the invariant of the main loop ---------- *)
 (* k positions treated; js: the positions for which an edge was added (all of them in the repaired variant) *)
 Record rr_inv (repair : bool) (n : nat) (A0 B0 : list Z) (k : nat) (G : iograph) (A B : list Z) (js : list nat) : Prop := {
-  ri_kind : io_kind G = KBipartite;
+  ri_kind : io_kind G = GioBipartite;
   ri_lenA : length A = n;
   ri_lenB : length B = n;
   ri_cntA : forall z, cnt A z = cnt A0 z;
@@ -243,7 +243,7 @@ Proof. induction k as [|k IH]; cbn [repeat concat]; [reflexivity|]. rewrite app_
 Lemma rr_restarts_regular : forall restarts repair l r d s G s', 0 <= l -> 0 < r -> 0 <= d -> (l * d) mod r = 0 ->
   gg_rr_restarts repair restarts l r d s = GGOk (G, s') ->
   (repair = true \/ gg_nedges G = l * d) ->
-  io_kind G = KBipartite /\
+  io_kind G = GioBipartite /\
   (forall u, 1 <= u <= l -> Z.of_nat (ldeg G u) = d) /\ (forall v, 1 <= v <= r -> Z.of_nat (rdeg G v) = l * d / r) /\
   gg_nedges G = l * d.
 Proof.
@@ -281,7 +281,7 @@ Qed.
 
 Theorem random_regular_degrees : forall repair restarts l r d s G s',
   gg_random_regular repair restarts l r d s = GGOk (G, s') -> (repair = true \/ gg_nedges G = l * d) ->
-  io_kind G = KBipartite /\
+  io_kind G = GioBipartite /\
   (forall u, 1 <= u <= l -> Z.of_nat (length (gio_succs G u)) = d) /\
   (forall v, 1 <= v <= r -> Z.of_nat (length (gio_preds G v)) = l * d / r) /\
   gg_nedges G = l * d.
@@ -295,14 +295,14 @@ Qed.
 
 Lemma random_regular_spec_degrees : forall restarts l r d s G s',
   gg_random_regular_spec restarts l r d s = GGOk (G, s') ->
-  io_kind G = KBipartite /\
+  io_kind G = GioBipartite /\
   (forall u, 1 <= u <= l -> Z.of_nat (length (gio_succs G u)) = d) /\
   (forall v, 1 <= v <= r -> Z.of_nat (length (gio_preds G v)) = l * d / r) /\
   gg_nedges G = l * d.
 Proof. intros restarts l r d s G s' H. exact (random_regular_degrees true restarts l r d s G s' H (or_introl eq_refl)). Qed.
 Lemma random_regular_as_is_partial : forall restarts l r d s G s',
   gg_random_regular_as_is restarts l r d s = GGOk (G, s') -> gg_nedges G = l * d ->
-  io_kind G = KBipartite /\
+  io_kind G = GioBipartite /\
   (forall u, 1 <= u <= l -> Z.of_nat (length (gio_succs G u)) = d) /\
   (forall v, 1 <= v <= r -> Z.of_nat (length (gio_preds G v)) = l * d / r) /\
   gg_nedges G = l * d.
